@@ -39,6 +39,14 @@ static void dump(void)
   for(k = 0; k < NS; k++) if(S[k]){ printf("S%zu %zu", k, S[k]->size); for(i = 0; i < S[k]->size; i++) printf(" \"%s\"", S[k]->data[i]); printf("\n"); }
 }
 
+/* text operands: '_' stands for a space, '~' for a tab, "@" for the empty string; the text is handed over in a heap block of exactly
+   its size */
+static char *dec_text(const char *t)
+{
+  size_t n = strcmp(t, "@") == 0 ? 0 : strlen(t), i; char *r = malloc(n + 1);
+  for(i = 0; i < n; i++) r[i] = t[i] == '_' ? ' ' : (t[i] == '~' ? '\t' : t[i]);
+  r[n] = 0; return r;
+}
 static char *tok[64]; static int ntok;
 static size_t z(int i){ return (size_t)strtoull(tok[i], NULL, 10); }
 static double f(int i){ return strtod(tok[i], NULL); }
@@ -129,6 +137,7 @@ int main(void)
       else if(IS("s_appint")){ StrVectorAppendInt(S[z(1)], (int)strtol(tok[2], NULL, 10)); }
       else if(IS("s_appdbl")){ StrVectorAppendDouble(S[z(1)], strtod(tok[2], NULL)); }
       else if(IS("s_set")){ setStr(S[z(1)], z(2), tok[3]); }
+      else if(IS("s_split")){ char *a = dec_text(tok[2]), *b = dec_text(tok[3]); SplitString(a, b, S[z(1)]); free(a); free(b); }
       else if(IS("s_extend")){ S[z(3)] = StrVectorExtend(S[z(1)], S[z(2)]); }
       else { fprintf(stderr, "drv_cont: unknown op %s\n", tok[0]); return 3; }
     }
